@@ -1035,6 +1035,16 @@ pub const POLY_LIB: &[(&str, &str, &str)] = &[
     ("poly_even", "fn poly_even($1, $2, $3) { case $1 { 0 -> $2 _ -> poly_odd($1 - 1, $2, $3) } }", "fn(Int, a, a) -> a"),
     ("poly_odd", "fn poly_odd($1, $2, $3) { case $1 { 0 -> $3 _ -> poly_even($1 - 1, $3, $2) } }", "fn(Int, a, a) -> a"),
     ("poly_wrap", "fn poly_wrap($1) { [$1] }", "fn(a) -> List(a)"),
+    // a recursion group of three whose members mix two type variables asymmetrically: the
+    // variables must stay apart in every member's signature
+    // ... and one where the last member introduces a variable of its own (from `[]`) next to
+    // the shared one: it must not be given the shared one's letter
+    ("poly_loop1", "fn poly_loop1($1, $2) { case $2 { 0 -> $1 _ -> poly_loop2($1, $2 - 1) } }", "fn(a, Int) -> a"),
+    ("poly_loop2", "fn poly_loop2($1, $2) { let _ = poly_loop3($1, $2) $1 }", "fn(a, Int) -> a"),
+    ("poly_loop3", "fn poly_loop3($1, $2) { let $3 = #(poly_loop1($1, $2), []) $3 }", "fn(a, Int) -> #(a, List(b))"),
+    ("poly_ring1", "fn poly_ring1($1, $2, $3) { case $1 { 0 -> #($2, [$3]) _ -> poly_ring2($1 - 1, $2, $3) } }", "fn(Int, a, b) -> #(a, List(b))"),
+    ("poly_ring2", "fn poly_ring2($1, $2, $3) { case $1 { 0 -> #($2, []) _ -> poly_ring3($1 - 1, $2, $3) } }", "fn(Int, a, b) -> #(a, List(b))"),
+    ("poly_ring3", "fn poly_ring3($1, $2, $3) { let $2 = #($2, []) poly_ring1($1, $2.0, $3) }", "fn(Int, a, b) -> #(a, List(b))"),
     ("poly_ok", "fn poly_ok($1, $2) { case True { True -> Ok($1) False -> Error($2) } }", "fn(a, b) -> Result(a, b)"),
 ];
 
